@@ -541,8 +541,21 @@ def _pslide(node, c):
             return
 
 
+# an argument the expression leaves out; the denotation uses the default the
+# port's signature documents: Pseries(start=0.0, step=1.0, length=inf),
+# Pgeom(start=1.0, grow=1.0, length=inf)
+OMIT = 'default'
+DEFAULTS = {'Pseries': (0.0, 1.0, INF), 'Pgeom': (1.0, 1.0, INF)}
+
+
+def _with_defaults(node):
+    d = DEFAULTS[node[0]]
+    return tuple(d[i] if isinstance(a, str) and a == OMIT else a
+                 for i, a in enumerate(node[1:]))
+
+
 def _pseries(node, c):
-    _, start, step, length = node
+    start, step, length = _with_defaults(node)
     cur = start
     ss = stream(step, c)
     for _ in counter(length):
@@ -557,7 +570,7 @@ def _pseries(node, c):
 
 
 def _pgeom(node, c):
-    _, start, grow, length = node
+    start, grow, length = _with_defaults(node)
     cur = start
     gs = stream(grow, c)
     for _ in counter(length):
@@ -712,6 +725,32 @@ def norm(v):
     if isinstance(v, (list, tuple)):
         return [norm(i) for i in v]
     return v
+
+
+def same_kind(a, b):
+    """int against int, float against float (bool is its own kind)."""
+    if isinstance(a, (list, tuple)) and isinstance(b, (list, tuple)):
+        return len(a) == len(b) and all(same_kind(x, y) for x, y in zip(a, b))
+    num = (int, float)
+    if isinstance(a, num) and isinstance(b, num):
+        return type(a) is type(b)
+    return True
+
+
+# operations whose result kind (int or float) the documentation does not fix:
+# the clip / wrap / mod kernels choose it from their arguments' kinds
+KIND_LOOSE = {('Pwrap',), ('Pnarop', 'clip'), ('Pnarop', 'wrap'), ('Pbinop', 'mod')}
+
+
+def kind_is_fixed(node):
+    """True when every number the expression yields has a documented kind:
+    leaves and defaults as written / as in the port's signatures, Python
+    arithmetic in between."""
+    for n in walk(node):
+        if (n[0],) in KIND_LOOSE or (
+                len(n) > 1 and isinstance(n[1], str) and (n[0], n[1]) in KIND_LOOSE):
+            return False
+    return True
 
 
 def same_value(a, b):
